@@ -114,7 +114,8 @@ pub fn run_mathlaw(t: &mut Toks) -> Option<String> {
             let x = f64::from_bits(u64::from_str_radix(t.next()?, 16).ok()?);
             let y = f64::from_bits(u64::from_str_radix(t.next()?, 16).ok()?);
             let a = [V::Number(x)];
-            let checks: [(&str, bool); 16] = [
+            let checks: [(&str, bool); 17] = [
+                ("parity_huge", !x.is_finite() || x.abs() < 9007199254740992.0 || (math::even(&a) == Ok(V::Boolean(true)) && math::odd(&a) == Ok(V::Boolean(false)))),
                 ("abs", same(numr(math::abs(&a)), x.abs())), ("round", same(numr(math::round(&a)), x.round())), ("trunc", same(numr(math::trunc(&a)), x.trunc())),
                 ("frac", same(numr(math::frac(&a)), x.fract())), ("sqrt", same(numr(math::sqrt(&a)), x.sqrt())), ("exp", same(numr(math::exp(&a)), x.exp())),
                 ("ln", same(numr(math::ln(&a)), x.ln())), ("sin", same(numr(math::sin(&a)), x.sin())), ("cos", same(numr(math::cos(&a)), x.cos())),
